@@ -176,6 +176,7 @@ func Start(db dbm.DB, nodeKey *ecdsa.PrivateKey, cfg *config.Config, attachCerem
 	if e := chain.EnsureIntegrity(); e != nil {
 		return nil, fmt.Errorf("EnsureIntegrity: %v", e)
 	}
+	chain.ApplyHotfixToState()
 	txPool.Initialize(chain.Head, ss.GetAddress(), false)
 	n = &Node{DB: db, Chain: chain, App: app, Pool: txPool, Bus: bus, Key: nodeKey,
 		Addr: crypto.PubkeyToAddress(nodeKey.PublicKey), Cfg: cfg, Sec: ss}
